@@ -25,6 +25,12 @@ import (
 
 func init() {
 	families["C02"] = append(families["C02"], lockFamily)
+	// what goes back to a pool, and when, also decides whether a later render can see an earlier
+	// one (C01): the release-order obligations are claimed there as well
+	families["C01"] = append(families["C01"], func(w *World, prop string) ([]*Obligation, []string) {
+		rel := releaseOrderObligations(w)
+		return rel, []string{fmt.Sprintf("release-order obligations: %d", len(rel))}
+	})
 }
 
 type guardSpec struct {
@@ -330,12 +336,36 @@ func releaseOrderObligations(w *World) []*Obligation {
 						}
 					}
 				}
+				// the object itself goes back to the pool once: a second release (explicit, or the
+				// pending deferred one) would put it there twice, and two later owners would share it
+				deferred := false
+				for _, bb := range fn.Blocks {
+					for _, in2 := range bb.Instrs {
+						if d, ok := in2.(*ssa.Defer); ok {
+							if dc := d.Call.StaticCallee(); dc != nil && releasers[calleeName(dc)] && len(d.Call.Args) > 0 && d.Call.Args[0] == v {
+								deferred = true
+							}
+						}
+					}
+				}
+				for _, in3 := range after {
+					switch y := in3.(type) {
+					case *ssa.Call:
+						if yc := y.Call.StaticCallee(); yc != nil && releasers[calleeName(yc)] && len(y.Call.Args) > 0 && y.Call.Args[0] == v {
+							bad = "the object is released a second time"
+						}
+					case *ssa.RunDefers:
+						if deferred {
+							bad = "the object is released here and again by the deferred release"
+						}
+					}
+				}
 				goal := "true"
 				if bad != "" {
 					goal = "false"
 				}
 				pos, src := w.posAndSrc(in)
-				out = append(out, &Obligation{Name: fmt.Sprintf("%s/release#%d", name, len(out)+1), Kind: "release", Func: name, Pos: pos, Src: src, Goal: goal, PC: "true", Props: []string{"C02"},
+				out = append(out, &Obligation{Name: fmt.Sprintf("%s/release#%d", name, len(out)+1), Kind: "release", Func: name, Pos: pos, Src: src, Goal: goal, PC: "true", Props: []string{"C02", "C01"},
 					Comment: "nothing owned by the object is used after " + calleeName(callee) + " hands it back to its pool" + ifs(bad != "", " — "+bad, ""), Custom: "(assert " + not(goal) + ")"})
 			}
 		}
